@@ -38,7 +38,7 @@ TRUSTED = ['the constructor\'s mask normalisation (mask != 0, mask=None -> ampli
            'np.exp(1j*t) = cos t + i sin t (Float model) ; |z**2| = re^2 + im^2 up to rounding']
 UNPROVEN = ['fields and segment phasors with exactly one element are outside the theorems (known finding KF-C07-one-pixel-segment)',
             'chains of planes AND propagations: each step is covered by a theorem (plane: plane_multiply_*; views after any step: intensity_eq_normSq_field, wavefront_insert_weight; '
-            'chain of planes: C03 chain_distrib / chain_exp; propagation: C02/C03), the interleaved chain as a whole by correspondence (c03.chain) and oracle only',
+            'chain of planes: C03 chain_distrib / chain_exp; propagation: C02/C03; a masked plane after a propagation: C03 plane_after_propagation), the interleaved chain as a whole by correspondence (c03.chain) and oracle only',
             'views on shape-() wavefronts and zero-dimensional / single (1,1) fields: oracle only (the array model has no 0-d data; C06 reduceZ covers the merge)',
             'multiply overrides other than Plane/Pupil/Image/Tilt: DispersiveTilt/Grism (tilt bookkeeping, C04), LensletArray are not exercised; DispersiveAberration.multiply raises NotImplementedError; '
             'Rotate/Flip.multiply raise AttributeError (open known finding of C08)',
